@@ -20,7 +20,7 @@ PROPERTY = "C12"
 
 META = {
     "bounds": {
-        "quick": "8 template programs + a three-block program under all 6 orders of its blocks' file offsets (one with a string literal holding a symbolic source character) x entry point {cli, file API} x the whole option lattice (2 formats x 3 mappings x copier flag, symbolic) x -D value of 4 symbolic hex digits; start address symbolic in the mapping's first banks; symbol file for 3 templates",
+        "quick": "8 template programs + a three-block program under all 6 orders of its blocks' file offsets (one with a string literal holding a symbolic source character) x entry point {cli, file API} x the whole option lattice (2 formats x 3 mappings x copier flag, symbolic) x -D value of 4 symbolic hex digits; the -D value in 10 more spellings that int(text, 0) accepts (0X, decimal, digit separators, sign, 0o, 0b/0B, surrounding blanks); start address symbolic in the mapping's first banks; symbol file for 3 templates",
         "thorough": "10 templates, -D value of 6 hex digits, start address anywhere in the mapping's window",
     },
     "outside": ["argparse itself and the OS process boundary (replayed concretely through `python -m a816.cli`)", "--dump-symbols console output", "programs beyond the templates"],
@@ -53,6 +53,22 @@ TEMPLATES = {
 }
 QUICK = ["data", "instr", "two-blocks", "scopes", "loop", "reloc", "literal", "define-shadow"]
 
+DEC = list(range(0x30, 0x3A))
+# name -> (text before the digits, digit domain, base, sign, text after the digits, digit separator?)
+SPELLINGS = {
+    "0x": ("0x", sorted(ord(c) for c in "0123456789abcdefABCDEF"), 16, 1, "", False),
+    "0X": ("0X", sorted(ord(c) for c in "0123456789abcdefABCDEF"), 16, 1, "", False),
+    "dec": ("", DEC[1:], 10, 1, "", False),
+    "dec-separator": ("", DEC[1:], 10, 1, "", True),
+    "plus": ("+", DEC[1:], 10, 1, "", False),
+    "minus": ("-", DEC[1:], 10, -1, "", False),
+    "0o": ("0o", list(range(0x30, 0x38)), 8, 1, "", False),
+    "0b": ("0b", [0x30, 0x31], 2, 1, "", False),
+    "0B": ("0B", [0x30, 0x31], 2, 1, "", False),
+    "blank-around": (" ", DEC[1:], 10, 1, " ", False),
+    "0x-separator": ("0x", sorted(ord(c) for c in "0123456789abcdefABCDEF"), 16, 1, "", True),
+}
+
 MAPPINGS = ["low", "low2", "high"]
 GEOM = {"low": "low", "low2": "low", "high": "high"}
 
@@ -63,6 +79,9 @@ def jobs(tier, seed):
     for n in names:
         for entry in ("cli", "file"):
             out.append({"id": f"{n}/{entry}", "tpl": n, "entry": entry, "digits": 4 if tier == "quick" else 6, "wide": tier == "thorough"})
+    for sp in SPELLINGS:
+        if sp != "0x":
+            out.append({"id": f"define-spelling/{sp}/cli", "tpl": "data", "entry": "cli", "digits": 3, "wide": False, "spelling": sp})
     import itertools
 
     for order in itertools.permutations(("p0", "p1", "p2")):
@@ -120,8 +139,15 @@ def run(spec, cx):
         seq = spec["order"]
         for a, b in zip(seq, seq[1:]):
             cx.assume(L.offset(g, cx.t(a)) + 0x10 < L.offset(g, cx.t(b)))
-    digits = [cx.char(f"d{i}", HEX) for i in range(spec["digits"])]
-    define = cx.string([ord(c) for c in "v=0x"] + digits)
+    # spelling of the -D value: every spelling Python's int(text, 0) accepts is a number on the command line
+    pre_txt, dom, base, sign, post_txt, sep = SPELLINGS[spec.get("spelling", "0x")]
+    digits = [cx.char(f"d{i}", dom) for i in range(spec["digits"])]
+    body = []
+    for i, d in enumerate(digits):
+        if sep and i == 1:
+            body.append(ord("_"))          # digit separator after the first digit
+        body.append(d)
+    define = cx.string([ord(c) for c in "v=" + pre_txt] + body + [ord(c) for c in post_txt])
     val = 0
     for d in digits:
         if cx.symbolic:
@@ -131,7 +157,9 @@ def run(spec, cx):
             dig = symx.SInt(z3.simplify(z3.If(dv.t <= 0x39, dv.t - 0x30, z3.If(dv.t >= 0x61, dv.t - 0x57, dv.t - 0x37))), 0, 15)
         else:
             dig = int(chr(d), 16)
-        val = val * 16 + dig
+        val = val * base + dig
+    if sign < 0:
+        val = 0 - val
     src = SK.render(prog) + "\n"
     if "?" in src:
         # symbolic characters of the source text (any ASCII character but quote, backslash and newline)
